@@ -41,6 +41,7 @@ def gen_decl(rnd, k, opts=None):
             second[i] = rnd.choice([None] + list(range(0, i)))
     # interface binding: node j's result also available as interface IF_j
     binds = {j for j in range(1, n) if j != structnode and rnd.random() < 0.2}
+    binds2 = {j for j in binds if rnd.random() < 0.35}      # bound to a second interface as well: Bind[I2](Bind[I1](...))
     if opts.get("bindmv") and n > 1:
         # directed shape: a Bind-wrapped provider with two results whose bound value is the FIRST one
         j = rnd.choice([x for x in range(1, n) if x != structnode])
@@ -66,6 +67,8 @@ def gen_decl(rnd, k, opts=None):
             if rnd.random() < 0.2:
                 out.append("*%sSt" % P)
             return out
+        if j in binds2 and rnd.random() < 0.4:
+            return ["%sIF%db" % (P, j)]
         if j in binds and rnd.random() < 0.6:
             return ["%sIF%d" % (P, j)]
         return [T(j)]
@@ -91,16 +94,18 @@ def gen_decl(rnd, k, opts=None):
             prv = [[T(i)]]
         if i in binds:
             prv[0].append("%sIF%d" % (P, i))
+        if i in binds2:
+            prv[0].append("%sIF%db" % (P, i))
         if i in second:
             prv.append(["*%sX%d" % (P, i)])
         if i in values:
             provs[i] = dict(kind="value", var="%sV%d" % (P, i), fn=None, requires=[], provides=prv, fallible=False, node=i,
-                            bind=(["%sIF%d" % (P, i)] if i in binds else []), **{"async": False})
+                            bind=(["%sIF%d" % (P, i)] if i in binds else []) + (["%sIF%db" % (P, i)] if i in binds2 else []), **{"async": False})
         else:
             provs[i] = dict(kind="fn", fn="New%sT%d" % (P, i), requires=req, provides=prv, fallible=fall[i], node=i,
                             errtype=("%sErr" % P if rnd.random() < 0.25 else "error"),
-                            nest=rnd.choice(["async_outer", "bind_outer"]),
-                            bind=(["%sIF%d" % (P, i)] if i in binds else []), **{"async": asyncs[i]})
+                            nest=rnd.choice(["async_outer", "bind_outer"]), lit=(rnd.random() < 0.15),
+                            bind=(["%sIF%d" % (P, i)] if i in binds else []) + (["%sIF%db" % (P, i)] if i in binds2 else []), **{"async": asyncs[i]})
     order = list(range(n))
     rnd.shuffle(order)
     flat = [provs[i] for i in order]
@@ -686,6 +691,11 @@ def provider_expr(d, p):
             e = "kessoku.Bind[%s](%s)" % (iface, e)
         return e
     e = "kessoku.Provide(%s)" % p["fn"]
+    if p.get("lit"):
+        # a function literal as provider (it forwards to the instrumented function)
+        params = ", ".join("p%d %s" % (q, t) for q, t in enumerate(p["requires"]))
+        rets = [g[0] for g in p["provides"]] + ([p.get("errtype", "error")] if p["fallible"] else [])
+        e = "kessoku.Provide(func(%s) (%s) { return %s(%s) })" % (params, ", ".join(rets), p["fn"], ", ".join("p%d" % q for q in range(len(p["requires"]))))
     if p["async"] and p.get("nest") == "bind_outer":
         e = "kessoku.Async(%s)" % e          # Bind[I](Async(Provide(f))): the other legal nesting
         for iface in p.get("bind", []):
